@@ -2,6 +2,7 @@
 toughreact_tecplot classes on a concrete object made with __new__, stub file
 and stub table reader; independent expected index computed here."""
 from fractions import Fraction
+import numpy as np
 
 def num(x):
     if isinstance(x, dict) and 'frac' in x:
@@ -25,12 +26,27 @@ class FileStub(object):
     def tell(self): return self.pos
 
 
+
+def with_short_output(times, steps, fullpos):
+    """the check's stub has two short-output times after the first full result set
+    (more output times than full result sets); only their number matters here"""
+    n = len(times)
+    t0, s0 = times[0], int(steps[0])
+    t1 = times[1] if n > 1 else t0 + 1000
+    s1 = int(steps[1]) if n > 1 else s0 + 1000
+    xt = [t0 + (t1 - t0) / 3.0, t0 + 2 * (t1 - t0) / 3.0]
+    xs = [s0 + max(1, (s1 - s0) // 3), s0 + max(2, 2 * (s1 - s0) // 3)]
+    tl = np.array([times[0]] + xt + list(times[1:]))
+    sl = np.array([s0] + xs + [int(s) for s in steps[1:]])
+    pos = [fullpos[0], fullpos[0] + 11, fullpos[0] + 23] + list(fullpos[1:])
+    return tl, sl, pos
+
 def build(T, cls, times, steps, fullpos, k0):
     log = []
     lst = getattr(T, cls).__new__(getattr(T, cls))
     lst._file = FileStub(log)
     lst.fulltimes, lst.fullsteps, lst._fullpos = times, steps, fullpos
-    lst.times, lst.steps, lst._pos = times, steps, fullpos
+    lst.times, lst.steps, lst._pos = with_short_output(times, steps, fullpos)
     def read_tables():
         pos = lst._file.pos
         log.append(('read', pos))
@@ -89,7 +105,7 @@ def replay(d):
     lst._file = FileStub(log)
     if cls == 't2listing':
         lst.fulltimes, lst.fullsteps, lst._fullpos = times, steps, fullpos
-        lst.times, lst.steps, lst._pos = times, steps, fullpos
+        lst.times, lst.steps, lst._pos = with_short_output(times, steps, fullpos)
         def read_tables():
             pos = lst._file.pos
             log.append(('read', pos))
